@@ -23,11 +23,11 @@ func init() {
 		Cases: func(tier string) int {
 			switch tier {
 			case "thorough":
-				return 60000
+				return 250000
 			case "race":
 				return 3000
 			}
-			return 20000
+			return 35000
 		},
 		Run:            c01Run,
 		Floor:          func(tier string) int { return 1000 },
